@@ -23,8 +23,13 @@ cls(
         ("H2.inv.no-zero", "not in_map(self.stream_buffers, 0)", "C04"),
         ("H2.inv.has_data-clearable", "not self.has_data.g_sticky", "C09"),
     ],
-    rely=[("H2.rely.closed-monotone", "implies(old(self.closed), self.closed)", "C03,C07")],
+    rely=[("H2.rely.closed-monotone", "implies(old(self.closed), self.closed)", "C03,C07"),
+          # C18: the counter the keep-alive limit is decided on never goes down (it counts requests
+          # taken on, whatever becomes of them)
+          ("H2.rely.requests-monotone", "self.keep_alive_requests >= old(self.keep_alive_requests)", "C18")],
     task_rely={
+        # only the reader counts requests
+        "reader": [("H2.rely[reader].count", "self.keep_alive_requests == old(self.keep_alive_requests)", "C18")],
         # only the send task removes send buffers
         "send": [("H2.rely[send].buffers-stay", "forall_int('k', implies(in_map(old(self.stream_buffers), k), in_map(self.stream_buffers, k)))", "C04,C09")],
     },
@@ -38,7 +43,10 @@ fn(H2 + "._send_data", params={"stream_id": "int"}, task="send",
    # send, or no window.  (Blocking on a window value read before a suspension loses the wake-up of
    # a WINDOW_UPDATE handled in between: nobody unblocks a stream that was not yet blocked.)
    model_opts={"call_requires": {"PriorityTree.block": [("C08.block.current",
-       "h2_window(self.connection, stream_id) <= 0 or h2_max_frame(self.connection) <= 0 or len(map_val(self.stream_buffers, stream_id).buffer) == 0", "C08,C09,C02")]}},
+       "h2_window(self.connection, stream_id) <= 0 or h2_max_frame(self.connection) <= 0 or len(map_val(self.stream_buffers, stream_id).buffer) == 0", "C08,C09,C02")],
+       # C05 "never bytes that parse as a complete response": END_STREAM goes out only for a
+       # stream whose layer asked for it (EndBody / EndData), never for a buffer that was closed
+       "H2Connection.end_stream": [("C05.h2.no-false-end", "map_val(self.stream_buffers, stream_id).g_end_requested", "C05,C02")]}},
    requires=[("send_data.pre.scheduled", "stream_id != 0 and sel(self.priority.has, stream_id) and in_map(self.stream_buffers, stream_id)")],
    ensures=[
        ("C09.order.same-stream", "trace_all('h2', 'x', x[1] == stream_id)", "C09,C02"),
@@ -60,13 +68,30 @@ fn(H2 + ".handle", params={"event": _ev.IO_EVENTS}, task="reader",
    props=("C04",))
 
 fn(H2 + ".stream_send", params={"event": _ev.STREAM_EVENTS}, task="app",
-   requires=[("stream_send.pre.sid", "event.stream_id > 0")], props=("C04", "C05"))
+   requires=[("stream_send.pre.sid", "event.stream_id > 0")],
+   ensures=[
+       # C05 ("HTTP/2: the stream is reset"): when a stream layer reports that it is finished the
+       # HTTP/2 stream does not stay open for ever: it was ended or reset, or the connection is
+       # closed, or the end of the stream has been requested (EndBody / EndData came first) so that
+       # the send task ends it once drained.  After an application failure nothing has requested
+       # the end, so only a reset satisfies the clause.
+       ("C05.h2.reset", "implies(isinstance(event, StreamClosed), not h2_sendable(self.connection, event.stream_id) "
+        "or (in_map(self.stream_buffers, event.stream_id) and map_val(self.stream_buffers, event.stream_id).g_end_requested))", "C05"),
+   ],
+   props=("C04", "C05"))
 
 fn(H2 + "._handle_events", params={"events": "obj pyvc:H2Events"}, task="reader",
    loops={0: {"body_ensures": [
        # C01/C09: every DATA frame is acknowledged for flow control with its flow-controlled
        # length, whether or not its stream still exists (otherwise the connection window drains)
        ("C09.ack", "implies(isinstance(event, h2.events.DataReceived), trace_any('h2', 'x', x[0] == 'ack' and x[1] == event.stream_id and x[2] == event.flow_controlled_length))", "C09,C04,C01"),
+       # C01.h2.data / C01.h2.end: the body bytes of a DATA frame and the end of the request
+       # (h2 reports it as a StreamEnded event of its own, whichever frame carried END_STREAM --
+       # DATA, HEADERS or trailers) reach the stream object if it still exists
+       ("C01.h2.data", "implies(isinstance(event, h2.events.DataReceived) and in_map(self.streams, event.stream_id), "
+        "trace_any('calls', 'c', (c[0] == 'HTTPStream.handle' or c[0] == 'WSStream.handle') and isinstance(c[2], Body) and c[2].stream_id == event.stream_id and c[2].data == event.data))", "C01,C10"),
+       ("C01.h2.end", "implies(isinstance(event, h2.events.StreamEnded) and in_map(self.streams, event.stream_id), "
+        "trace_any('calls', 'c', (c[0] == 'HTTPStream.handle' or c[0] == 'WSStream.handle') and isinstance(c[2], EndBody) and c[2].stream_id == event.stream_id))", "C01"),
        # C18.ka.h2: one more than keep_alive_max_requests are served, then the peer is told to go away
        ("C18.ka.h2", "implies(isinstance(event, h2.events.RequestReceived) and self.keep_alive_requests > self.config.keep_alive_max_requests, trace_any('h2', 'x', x[0] == 'close_connection'))", "C18"),
        ("C18.ka.h2.not-early", "implies(isinstance(event, h2.events.RequestReceived) and self.keep_alive_requests <= self.config.keep_alive_max_requests, not trace_any('h2', 'x', x[0] == 'close_connection'))", "C18"),
@@ -77,6 +102,7 @@ fn(H2 + "._handle_events", params={"events": "obj pyvc:H2Events"}, task="reader"
 
 fn(H2 + "._create_stream", params={"request": "obj h2.events:RequestReceived"}, task="reader",
    loops={0: {"locals": {"method": "str", "raw_path": "bstr"}}},
+   ensures=[("C18.ka.h2.counted", "self.keep_alive_requests == old(self.keep_alive_requests) + 1", "C18")],
    props=("C04", "C01", "C18"))
 
 fn(H2 + "._window_updated", params={"stream_id": "opt int"}, task="reader",
